@@ -104,6 +104,12 @@ def run_faults(ctx):
                         cases.append(dict(before=setup_ops(present), experiment=dict(kind="none"), after=[op] + READS))
                         models.append("show_sys (run_single %s %s)" % (prev_term(present), writer_term(frames, bad_sum=not good)))
                         meta.append(dict(kind="checksum_%s_%s" % (alg, "good" if good else "bad"), present=present, n=n, frames=len(frames), put_index=-3, expect_body=body if good else None))
+                # Content-MD5: right, wrong and not base64 (whatever the backend makes of the header, a refused upload changes nothing)
+                for label, val in (("good", base64.b64encode(hashlib.md5(body).digest()).decode()), ("bad", base64.b64encode(b"\xff" * 16).decode()), ("malformed", "!!not-base64!!")):
+                    op = dict(op="put", bucket=h(BK), key=h(KEY), body=h(body), frame=fsz, metadata={"v": "new"}, content_md5=val)
+                    cases.append(dict(before=setup_ops(present), experiment=dict(kind="none"), after=[op] + READS))
+                    models.append("show_sys (run_single %s %s)" % (prev_term(present), writer_term(frames)))
+                    meta.append(dict(kind="contentmd5_" + label, present=present, n=n, frames=len(frames), put_index=-3, expect_body=body, model_free=(label != "good")))
                 # dropped after k frames
                 for k in range(len(frames) + 1):
                     op = dict(op="put", bucket=h(BK), key=h(KEY), body=h(body), frame=fsz)
@@ -133,7 +139,7 @@ def run_faults(ctx):
         if not okprop:
             ctx.violation(dict(stage="fault", kind="write not all-or-nothing: after a %s write the object/temp files are %s" % (status, impl[:120]),
                                case={k: v for k, v in mt.items() if k != "expect_body"}, answers=[a[:200] for a in r["outs"][-3:]], tmp=r["tmp"], model=m[:200]))
-        elif impl != m:
+        elif impl != m and not mt.get("model_free"):
             ctx.violation(dict(stage="correspondence:fault", kind="model and implementation differ", case={k: v for k, v in mt.items() if k != "expect_body"}, impl=impl[:300], model=m[:300]), has_input=False)
         else:
             ctx.cov["traces_validated_against_impl"] += 1
@@ -202,6 +208,17 @@ def run_concurrent(ctx):
                 sched[i], sched[j] = sched[j], sched[i]
             exprs.append(("show_sys (run_sched [%s] %s [%s]%%nat)" % (";".join(writer_term(fr) for _, fr in small), prev_term(present), ";".join(map(str, sched))),
                           [s[0] for s in small]))
+    # many short rounds of eight writers with bodies of eight different small lengths on eight threads: what one writer does after its
+    # rename (any look at the published object) meets another writer's rename
+    for rd in range(80 if ctx.quick else 1500):
+        present = rd % 2 == 1
+        writers, bodies = [], []
+        for w in range(8):
+            body = bytes([65 + w]) * (1 + w * 37 + (rd % 5) * 100)
+            writers.append(dict(bucket=h(BK), key=h(KEY), body=h(body), frame=4096, yields=0, metadata={"w": str(w)}))
+            bodies.append(body)
+        cases.append(dict(before=setup_ops(present), experiment=dict(kind="concurrent", writers=writers), after=READS, threads=8))
+        meta.append(dict(kind="concurrent", writers=8, present=present, bodies=bodies))
     res = vlib.run_impl("c19", cases)
     for r, mt in zip(res, meta):
         ctx.cov["evaluations"] += 1
@@ -218,7 +235,7 @@ def run_concurrent(ctx):
                                writers=mt["writers"], results=r["experiment"], tmp=r["tmp"], read=g[:60]))
         else:
             ctx.cov["traces_validated_against_impl"] += 1
-            ctx.nontrivial((mt["writers"], mt["present"], content[:1], len(content)))
+            ctx.nontrivial((mt["writers"], mt["present"], None if content is None else content[:1], None if content is None else len(content)))
             ctx.count("concurrent.winner_%d_of_%d" % (allowed.index(content), mt["writers"]) if False else "concurrent.ok")
     if exprs:
         outs = [m.decode() for m in vlib.run_model("C19", IMPORTS, [e for e, _ in exprs], shard=50)]
